@@ -1069,3 +1069,64 @@ Proof.
   split; [exact DB|]. apply (engine_forgets f env m _ sA outsB mB cB sB Q DB).
 Qed.
 End Proofs.
+
+(* the executable test implies the predicate *)
+From Dwgrep Require Import Quiet.
+
+Lemma all_fix_merge : forall brs,
+  (fix all (l : list mach) : bool := match l with [] => true | x :: t => quietb x && all t end) brs = true ->
+  forall x, In x brs -> quietb x = true.
+Proof.
+  induction brs as [|y t IHt]; intros H x Hx; [contradiction|]. apply andb_prop in H. destruct H as [H1 H2].
+  destruct Hx as [->|Hx]; [exact H1|apply IHt; assumption].
+Qed.
+
+Lemma all_fix_or : forall brs,
+  (fix all (l : list (mach * option stack)) : bool :=
+     match l with [] => true | (x, sl) :: t => quietb x && is_none sl && all t end) brs = true ->
+  forall x sl, In (x, sl) brs -> quietb x = true /\ sl = None.
+Proof.
+  induction brs as [|[y sy] t IHt]; intros H x sl Hx; [contradiction|].
+  apply andb_prop in H. destruct H as [H H3]. apply andb_prop in H. destruct H as [H1 H2].
+  destruct Hx as [E|Hx]; [inversion E; subst; split; [exact H1|destruct sl; [discriminate|reflexivity]]|apply IHt; assumption].
+Qed.
+
+Lemma quietb_quiet_n : forall n m, msize m <= n -> quietb m = true -> quiet m.
+Proof.
+  induction n as [|n IH]; intros m Hs; [destruct m; cbn in Hs; lia|].
+  destruct m; try (cbn [quietb quiet]; auto; fail);
+    try (cbn [quietb quiet msize] in *; intros H; apply IH; [lia|exact H]; fail);
+    cbn [quietb msize] in *; intros H; try discriminate H.
+  - (* MMerge *)
+    apply andb_prop in H. destruct H as [H H7]. apply andb_prop in H. destruct H as [H H6]. apply andb_prop in H. destruct H as [H H5].
+    apply andb_prop in H. destruct H as [H H4]. apply andb_prop in H. destruct H as [H H3]. apply andb_prop in H. destruct H as [H1 H2].
+    apply Nat.eqb_eq in H4, H6. apply negb_true_iff in H5, H7.
+    apply quiet_merge. split; [apply IH; [lia|exact H1]|]. split.
+    + unfold all_quiet. rewrite Forall_forall. intros x Hx. apply IH; [pose proof (msize_in_merge x brs Hx); lia|].
+      eapply all_fix_merge; eauto.
+    + repeat split; auto. intros ->. discriminate.
+  - (* MOr *)
+    apply andb_prop in H. destruct H as [H H3]. apply andb_prop in H. destruct H as [H1 H2].
+    apply quiet_or. split; [apply IH; [lia|exact H1]|]. split; [|destruct cur; [discriminate|reflexivity]].
+    unfold all_quiet_or. rewrite Forall_forall. intros [x sl] Hx. cbn [fst snd].
+    destruct (all_fix_or brs H2 x sl Hx) as [Q ->]. split; [|reflexivity].
+    apply IH; [pose proof (msize_in_or x None brs Hx); lia|exact Q].
+  - (* MCapture *) apply andb_prop in H. destruct H as [H1 H2]. cbn [quiet]. split; apply IH; try lia; assumption.
+  - (* MClosure *)
+    apply andb_prop in H. destruct H as [H H6]. apply andb_prop in H. destruct H as [H H5]. apply andb_prop in H. destruct H as [H H4].
+    apply andb_prop in H. destruct H as [H H3]. apply andb_prop in H. destruct H as [H1 H2].
+    cbn [quiet]. destruct slot; [discriminate|]. destruct seen; [|discriminate]. destruct stks; [|discriminate]. subst.
+    repeat split; auto; apply IH; try lia; assumption.
+  - (* MSubx *)
+    apply andb_prop in H. destruct H as [H H4]. apply andb_prop in H. destruct H as [H H3]. apply andb_prop in H. destruct H as [H1 H2].
+    cbn [quiet]. destruct saved; [discriminate|]. destruct slot; [discriminate|]. repeat split; auto; apply IH; try lia; assumption.
+  - (* MIfElse *)
+    apply andb_prop in H. destruct H as [H H5]. apply andb_prop in H. destruct H as [H H4]. apply andb_prop in H. destruct H as [H H3].
+    apply andb_prop in H. destruct H as [H1 H2].
+    cbn [quiet]. destruct active; [discriminate|]. repeat split; auto; apply IH; try lia; assumption.
+  - (* MWord *) apply andb_prop in H. destruct H as [H1 H2]. cbn [quiet]. destruct pending; [|discriminate]. split; [apply IH; [lia|assumption]|reflexivity].
+  - (* MApply *) apply andb_prop in H. destruct H as [H1 H2]. cbn [quiet]. destruct sub; [discriminate|]. split; [apply IH; [lia|assumption]|reflexivity].
+Qed.
+
+Theorem quietb_quiet m : quietb m = true -> quiet m.
+Proof. apply (quietb_quiet_n (msize m)). lia. Qed.
